@@ -56,7 +56,7 @@ static node_t *lookup(node_t *root, const char *s)
 
 void harness(void)
 {
-	char in_p1[NS + 1], in_p2[NS + 1], in_p3[NS + 1]; IN(size_t, in_l1); IN(size_t, in_l2); IN(size_t, in_l3);
+	char in_p1[NS + 1], in_p2[NS + 1], in_p3[NS + 1]; IN(size_t, in_l1); IN(size_t, in_l2); IN(size_t, in_l3); V_FILL(in_p1); V_FILL(in_p2); V_FILL(in_p3);
 	MPT_STRUCT(path) p1 = MPT_PATH_INIT, p2 = MPT_PATH_INIT; MPT_STRUCT(value) v1, v2; int k1 = 1, k2 = 2; size_t i;
 	node_t *root = 0, *n1, *n2, *q1, *q2, *q3;
 	/* the three paths are per-unit constants (CFG_P1/2/3): with symbolic path strings the node structure becomes
